@@ -18,16 +18,17 @@ ASSUME TLCSet(1, 0) /\ TLCSet(2, << >>)
 Note(rec) == TLCSet(2, Append(TLCGet(2), rec))
 Must(cond, rec) == IF cond THEN TRUE ELSE Note(rec)
 
-StrOK(t, v, s) ==
+\* man = 1: a hand-written type (types_man.go), whose names may keep the type prefix
+StrOK(t, v, s, man) ==
     LET cs == { i \in DOMAIN Consts[t] : Consts[t][i].v = v } IN
-    IF cs # {} THEN \E i \in cs : t \o s = Consts[t][i].name
+    IF cs # {} THEN \E i \in cs : t \o s = Consts[t][i].name \/ (man = 1 /\ s = Consts[t][i].name)
     ELSE s = t \o "(" \o v \o ")"
 
 VARIABLE k
 Init == k = 1
 Next == /\ k <= Len(Events)
         /\ LET e == Events[k] IN
-           CASE e.kind = "str" -> Must(StrOK(e.t, e.v, e.s), [what |-> "String()", t |-> e.t, v |-> e.v, observed |-> e.s])
+           CASE e.kind = "str" -> Must(StrOK(e.t, e.v, e.s, e.man), [what |-> "String()", t |-> e.t, v |-> e.v, observed |-> e.s])
              [] e.kind = "regen" -> Must(e.equal = 1, [what |-> "types_string.go is not what the repository's stringer generates from types.go", detail |-> e.detail])
         /\ TLCSet(1, TLCGet(1) + 1)
         /\ k' = k + 1
